@@ -69,7 +69,8 @@ ENTRY = {
                        + [f for f in idx.module("distance3d.geometry").functions.values() if f.name.startswith("support_function_")]
                        + _collider_methods(idx, ("support_function", "__init__", "update_pose")),
     "C14": lambda idx: _all_of(idx, COLL, "distance3d.mesh"),
-    "C15": lambda idx: _all_of(idx, HY + "_tetrahedron_intersection", HY + "_halfplanes", HY + "_barycentric_transform", HY + "_interface", HY + "_forces"),
+    "C15": lambda idx: _all_of(idx, HY + "_tetrahedron_intersection", HY + "_halfplanes", HY + "_barycentric_transform", HY + "_interface", HY + "_forces",
+                               HY + "_contact_surface"),      # observe_at names ContactSurface.contact_planes / contact_polygons
     "C16": lambda idx: _all_of(idx, HY + "_interface", HY + "_forces", HY + "_rigid_body", HY + "_contact_surface", HY + "_broad_phase"),
     "C18": lambda idx: cg.roots(idx, J + "::get_closest_point_to_origin", O + "::distance_subalgorithm_with_backup_procedure"),
     "C19": lambda idx: cg.roots(idx, *NARROW_ENTRIES) + _all_of(idx, "distance3d.self_collision"),
